@@ -40,7 +40,7 @@
 use std::iter::Sum;
 use std::ops::{AddAssign, DivAssign, MulAssign, Range, SubAssign};
 
-use nalgebra::{Const, DMatrix, Dynamic, Matrix, OMatrix, RowDVector, Scalar, VecStorage, U1};
+use nalgebra::{DMatrix, Dynamic, Matrix, OMatrix, RowDVector, Scalar, VecStorage, U1};
 
 use crate::linalg::cholesky::CholeskyDecomposableMatrix;
 use crate::linalg::evd::EVDDecomposableMatrix;
@@ -197,8 +197,15 @@ impl<T: RealNumber + Scalar + AddAssign + SubAssign + MulAssign + DivAssign + Su
     }
 
     fn to_row_vector(self) -> Self::RowVector {
+        // logical (row-major) order; the storage of `self` is column-major
         let (nrows, ncols) = self.shape();
-        self.reshape_generic(Const::<1>, Dynamic::new(nrows * ncols))
+        let mut v = RowDVector::zeros(nrows * ncols);
+        for r in 0..nrows {
+            for c in 0..ncols {
+                v[(0, r * ncols + c)] = self[(r, c)];
+            }
+        }
+        v
     }
 
     fn get(&self, row: usize, col: usize) -> T {
@@ -282,7 +289,18 @@ impl<T: RealNumber + Scalar + AddAssign + SubAssign + MulAssign + DivAssign + Su
     }
 
     fn dot(&self, other: &Self) -> T {
-        self.dot(other)
+        if (self.nrows() != 1 && self.ncols() != 1) || (other.nrows() != 1 && other.ncols() != 1) {
+            panic!("A and B should both be either a row or a column vector.");
+        }
+        if self.len() != other.len() {
+            panic!("A and B should have the same size");
+        }
+        // for vectors the storage order is the logical order
+        let mut result = T::zero();
+        for (a, b) in self.iter().zip(other.iter()) {
+            result += *a * *b;
+        }
+        result
     }
 
     fn slice(&self, rows: Range<usize>, cols: Range<usize>) -> Self {
@@ -290,7 +308,9 @@ impl<T: RealNumber + Scalar + AddAssign + SubAssign + MulAssign + DivAssign + Su
     }
 
     fn approximate_eq(&self, other: &Self, error: T) -> bool {
-        assert!(self.shape() == other.shape());
+        if self.shape() != other.shape() {
+            return false;
+        }
         self.iter()
             .zip(other.iter())
             .all(|(a, b)| (*a - *b).abs() <= error)
@@ -445,7 +465,7 @@ impl<T: RealNumber + Scalar + AddAssign + SubAssign + MulAssign + DivAssign + Su
     }
 
     fn max(&self) -> T {
-        let mut m = T::zero();
+        let mut m = T::neg_infinity();
         for v in self.iter() {
             m = m.max(*v);
         }
@@ -453,7 +473,7 @@ impl<T: RealNumber + Scalar + AddAssign + SubAssign + MulAssign + DivAssign + Su
     }
 
     fn min(&self) -> T {
-        let mut m = T::zero();
+        let mut m = T::infinity();
         for v in self.iter() {
             m = m.min(*v);
         }
@@ -461,6 +481,9 @@ impl<T: RealNumber + Scalar + AddAssign + SubAssign + MulAssign + DivAssign + Su
     }
 
     fn max_diff(&self, other: &Self) -> T {
+        if self.shape() != other.shape() {
+            panic!("A and B should have the same shape");
+        }
         let mut max_diff = T::zero();
         for r in 0..self.nrows() {
             for c in 0..self.ncols() {
@@ -521,7 +544,31 @@ impl<T: RealNumber + Scalar + AddAssign + SubAssign + MulAssign + DivAssign + Su
     }
 
     fn cov(&self) -> Self {
-        panic!("Not implemented");
+        let (m, n) = BaseMatrix::shape(self);
+
+        let mu = BaseMatrix::column_mean(self);
+
+        let mut cov: Self = BaseMatrix::zeros(n, n);
+
+        for k in 0..m {
+            for i in 0..n {
+                for j in 0..=i {
+                    let d = (self[(k, i)] - mu[i]) * (self[(k, j)] - mu[j]);
+                    cov[(i, j)] += d;
+                }
+            }
+        }
+
+        let m_t = T::from(m - 1).unwrap();
+
+        for i in 0..n {
+            for j in 0..=i {
+                cov[(i, j)] /= m_t;
+                cov[(j, i)] = cov[(i, j)];
+            }
+        }
+
+        cov
     }
 }
 
